@@ -478,4 +478,21 @@ def _trimmed(f):
     return g
 
 
+def _c14_specific(f):
+    """violations met in a history in which the task awaiting reset() was CANCELLED while the reset was suspended in a hook are
+    reported under a signature that says so (the recorded finding is about exactly these histories, nothing else)"""
+    def g(scn, obs):
+        bad = f(scn, obs)
+        m = scn.get('meta', {})
+        if m.get('family') == 'cancelled-reset' and bad:
+            bad = [(f'reset-half-applied:caller-cancelled@{m.get("gate")}:from-{m.get("frm")}',
+                    f'the task awaiting reset(statement, run_no_start_from) was cancelled while the reset was suspended in the {m.get("gate")} hook of a '
+                    f'user plugin (state {m.get("frm")}): reset() returned normally (transitions swallows the CancelledError of a root trigger) with the '
+                    'request half applied: ' + '; '.join(what for _, what in bad[:3]))]
+        return bad
+    return g
+
+
+c14 = _c14_specific(c14)
+
 ORACLES = {k: _trimmed(f) for k, f in {'C01': c01, 'C02': c02, 'C03': c03, 'C12': c12, 'C14': c14, 'C15': c15, 'C16': c16}.items()}
